@@ -191,6 +191,29 @@ impl MemQueue {
         first_record_to_keep
     }
 
+    #[cfg(mrecordlog_verif)]
+    pub(crate) fn verif_records(&self) -> Vec<(u64, usize, Option<u64>)> {
+        let total_len = self.concatenated_records.len();
+        (0..self.record_metas.len())
+            .map(|idx| {
+                let record_meta = &self.record_metas[idx];
+                let end_offset = self
+                    .record_metas
+                    .get(idx + 1)
+                    .map(|next_meta| next_meta.start_offset)
+                    .unwrap_or(total_len);
+                (
+                    record_meta.position,
+                    end_offset - record_meta.start_offset,
+                    record_meta
+                        .file_number
+                        .as_ref()
+                        .map(|file_number| file_number.file_number()),
+                )
+            })
+            .collect()
+    }
+
     pub fn size(&self) -> usize {
         self.concatenated_records.len()
             + self.record_metas.len() * std::mem::size_of::<RecordMeta>()
